@@ -4,4 +4,5 @@ let table : (string * (Model.z list list -> Model.z list list)) list = [
   "ringspec", Model.ring_spec_run;
   "array", Model.arr_run;
   "arrayspec", Model.arr_spec_run;
+  "resource", Model.res_run;
 ]
